@@ -8,7 +8,7 @@ use serde_json::{json, Value};
 
 pub const LEVEL: &str = "exploration";
 pub const EXHAUSTIVE: bool = false;
-pub const RULE: &str = "generated: (options x layout, history of 1..80 abstract ops over {any published key x any modifier byte x any selection byte, typed word, learned-key+suffix, backspace, ctrl-backspace, commit(i<len), finish, update-engine while idle, restart}) interpreted in-contract against a fresh context and a writable user directory; plus an exhaustive sweep of every published key x modifier 0..3 as the next key after each prepared state x 3 layouts x 4 option sets. Oracle: no engine call panics (watchdog 30 s per call). Non-trivial: the history reached a composition of >= 2 characters and contains a backspace, commit, update-engine or a key outside a-z; distinct by hash of the concrete event trace.";
+pub const RULE: &str = "generated: (options x layout, history of 1..80 abstract ops over {any published key x any modifier byte x any selection byte, typed word, learned-key+suffix, backspace, ctrl-backspace, commit(i<len), finish, update-engine while idle, restart}) interpreted in-contract against a fresh context and a writable user directory; plus an exhaustive sweep of every published key x modifier 0..3 as the next key after each prepared state x 3 layouts x 4 option sets; plus ALL fixed-layout histories of <= L events over a 13-symbol class-representative alphabet (ra, ka, a, i-sign, aa-sign, hasanta, chandrabindu, AU length mark, zo-fola, ro-fola, reph, digit, backspace) x all 32 settings of the five composition helpers (suggestions off L=5 quick / 6 thorough; suggestions+English on L=3 / 4). Oracle: no engine call panics (watchdog 30 s per call). Non-trivial: the history reached a composition of >= 2 characters and contains a backspace, commit, update-engine or a key outside a-z; distinct by hash of the concrete event trace.";
 pub const ASSUMPTIONS: &[&str] = &[
     "a panic caught at the Rust API is an abort at the extern \"C\" boundary",
     "user directory exists and is writable (C10 covers the opposite)",
@@ -100,6 +100,8 @@ pub fn run_history(opts: &Opts, ops: &[AbsOp], st: &mut Stats) -> Result<(), Fai
         crate::driver::Layout::Phonetic => "layout-phonetic",
         crate::driver::Layout::Probhat => "layout-probhat",
         crate::driver::Layout::Synthetic => "layout-synthetic",
+        crate::driver::Layout::Twin => "layout-twin",
+        crate::driver::Layout::Exotic => "layout-exotic",
     });
     if t.iter().any(|e| matches!(e, Ev::Key { code, .. } if keys().by_code(*code).map(|k| k.numpad).unwrap_or(false))) {
         st.label("has-keypad-key");
@@ -319,9 +321,99 @@ fn long_words(run: &Run) {
     );
 }
 
+/// Every history of up to L events over a class-representative alphabet of the synthetic layout (one key per
+/// character class the composition rules distinguish, plus backspace) x all 32 settings of the five composition
+/// helpers, from an idle method.  Suggestions off: L = 5 (quick) / 6 (thorough); suggestions + English on: L = 3 / 4.
+/// Random histories reach a particular 5-event conjunction under a particular option pair far too rarely.
+fn fixed_exhaustive(run: &Run) {
+    use crate::driver::{layout_inverse, Layout};
+    use crate::model;
+    let inv = layout_inverse(Layout::Synthetic);
+    let vals = ["\u{09B0}", "\u{0995}", "\u{0985}", "\u{09BF}", "\u{09BE}", "\u{09CD}", "\u{0981}", "\u{09D7}", model::ZOFOLA, model::ROFOLA, model::REPH, "\u{09E7}"];
+    let mut evs: Vec<Ev> = vals
+        .iter()
+        .map(|v| {
+            let (code, m) = *inv.get(*v).unwrap_or_else(|| panic!("synthetic layout lacks {v:?}"));
+            Ev::Key { code, m, sel: 0 }
+        })
+        .collect();
+    evs.push(Ev::Backspace);
+    let n = evs.len();
+    let mut items = vec![];
+    for sugg in [false, true] {
+        for bits in 0..32u32 {
+            for a in 0..n {
+                for b in 0..n {
+                    items.push((sugg, bits, a, b));
+                }
+            }
+        }
+    }
+    let (l_off, l_on) = match run.tier {
+        Tier::Quick => (5usize, 3usize),
+        Tier::Thorough => (6, 4),
+    };
+    run.exhaustive(
+        "fixed-short-histories-all-helper-settings",
+        &items,
+        |_| Sandbox::new(),
+        |&(sugg, bits, a, b), st, sb| {
+            let mut opts = Opts::parse(if sugg { "Sfe" } else { "SD" });
+            opts.vowel = bits & 1 != 0;
+            opts.chandra = bits & 2 != 0;
+            opts.kar = bits & 4 != 0;
+            opts.reph = bits & 8 != 0;
+            opts.karorder = bits & 16 != 0;
+            let l = if sugg { l_on } else { l_off };
+            let rest = l - 2;
+            let ctx = Ctx::new(opts, sb).map_err(|p| Failure::new(panic_kind(&p), format!("construction: {p}"), json!({"opts": opts.letters()})))?;
+            let total = n.pow(rest as u32);
+            let mut seq: Vec<usize> = vec![0; l];
+            seq[0] = a;
+            seq[1] = b;
+            for code in 0..total {
+                let mut c = code;
+                for slot in seq.iter_mut().skip(2) {
+                    *slot = c % n;
+                    c /= n;
+                }
+                let run_one = || -> Result<(), PanicInfo> {
+                    ctx.finish()?;
+                    for i in &seq {
+                        match &evs[*i] {
+                            Ev::Key { code, m, .. } => {
+                                ctx.key(*code, *m, 0)?;
+                            }
+                            _ => {
+                                ctx.backspace(false)?;
+                            }
+                        }
+                    }
+                    Ok(())
+                };
+                st.evals(1);
+                if let Err(p) = run_one() {
+                    let events: Vec<Ev> = seq.iter().map(|i| evs[*i].clone()).collect();
+                    return Err(Failure::new(
+                        panic_kind(&p),
+                        format!("fixed history {:?} under {}: {p}", seq.iter().map(|i| if *i < vals.len() { vals[*i] } else { "<backspace>" }).collect::<Vec<_>>(), opts.letters()),
+                        json!({"opts": opts.letters(), "events": events}),
+                    ));
+                }
+            }
+            st.count("fixed-short-histories", total as u64);
+            if opts.karorder && seq.len() >= 5 {
+                st.nontrivial(hash_of(&(sugg, bits, a, b)), || json!({"opts": opts.letters(), "first_two": [vals.get(a).copied().unwrap_or("<backspace>"), vals.get(b).copied().unwrap_or("<backspace>")], "histories": total}));
+            }
+            Ok(())
+        },
+    );
+}
+
 pub fn run(run: &Run) {
     long_words(run);
     sweep(run);
+    fixed_exhaustive(run);
     let (shards, cases) = match run.tier {
         Tier::Quick => (16, 700),
         Tier::Thorough => (16, 12000),
@@ -418,6 +510,14 @@ fn fuzz_campaign(run: &Run) {
         total += out.executed;
         run.parts.lock().unwrap().push(json!({"part": format!("libFuzzer campaign `history` ({name}, 16 jobs)"), "runs_approximate": out.executed, "ok": out.ok}));
         let new: Vec<PathBuf> = out.artifacts.iter().filter(|a| !before.contains(*a)).cloned().collect();
+        {
+            let mut st = run.stats.lock().unwrap();
+            st.count("fuzz-slow-unit-notes-ignored", out.slow_units);
+            st.count("fuzz-timeouts-under-load-not-reproduced", out.timeouts_not_reproduced);
+        }
+        if out.oom > 0 {
+            run.health.lock().unwrap().push(format!("campaign {name}: {} out-of-memory report(s) - inconclusive", out.oom));
+        }
         if !out.ok || !new.is_empty() {
             let mut f = Failure::new("fuzz-history-crash", format!("campaign {name}: {}", out.report.lines().take(8).collect::<Vec<_>>().join(" | ")), json!({}));
             f.artifact = new.first().cloned().or_else(|| Some(PathBuf::from("/verif/replays/C01-fuzz-no-artifact")));
